@@ -537,21 +537,23 @@ def interleaved_problem(ext_a, ext_b, schedule):
     return None
 
 
-def interleaved(ea: int):
-    """Path-exhaustive over (codec of the second writer, schedule of 4 writes): the concrete part runs real codecs untraced."""
+def interleaved(ea: int, k: int = 4):
+    """Path-exhaustive over (codec of the second writer, schedule of k writes): the concrete part runs real codecs untraced."""
     from crosshair.tracers import NoTracing
 
-    def check(eb: int, s0: bool, s1: bool, s2: bool, s3: bool) -> bool:
+    def check(eb: int, s0: bool, s1: bool, s2: bool, s3: bool, s4: bool, s5: bool) -> bool:
         """
         post: _
         """
         if not (0 <= eb < len(EXTS)):
             return True
+        if k < 6 and (s4 or s5):
+            return True
         ext_b = None
         for j in range(len(EXTS)):
             if eb == j:
                 ext_b = EXTS[j]
-        sched = [bool(s0), bool(s1), bool(s2), bool(s3)]
+        sched = [bool(s0), bool(s1), bool(s2), bool(s3), bool(s4), bool(s5)][:k]
         with NoTracing():
             return interleaved_problem(EXTS[ea], ext_b, sched) is None
 
@@ -566,7 +568,7 @@ def obligations(tier, seed):
         ob("O2-stream-header", "smt", "stream_header", {}, timeout=240, bounds="all byte strings a header read can return (<= 19 bytes)"),
         ob("O2-not-found", "xh", "not_found", {}, timeout=to, bounds="3 detection outcomes x leading '<' x selector"),
         ob("O3-open-path", "xh", "path_open", {}, timeout=to * 2, bounds="10 suffixes x 5 modes x clobber x exists x 4 stdio spellings"),
-        *[ob(f"O5-interleaved-writers/{EXTS[i] or 'raw'}", "xh", "interleaved", {"ea": i}, timeout=to * 2, group="O5-interleaved", bounds="second writer's codec x every schedule of 4 interleaved writes, real codecs and files") for i in range(len(EXTS))],
+        *[ob(f"O5-interleaved-writers/{EXTS[i] or 'raw'}", "xh", "interleaved", {"ea": i, "k": 4 if tier == "quick" else 6}, timeout=to * 2, group="O5-interleaved", bounds=f"second writer's codec x every schedule of {4 if tier == 'quick' else 6} interleaved writes, real codecs and files") for i in range(len(EXTS))],
         ob("O4-urls", "xh", "urls", {}, timeout=to * 2, bounds=f"{len(URLS)} URL spellings x reader/writer x clobber"),
     ]
 
@@ -689,7 +691,7 @@ def replay(res):
         ea = EXTS[res["args"]["ea"]]
         tries = []
         if isinstance(v.get("eb"), int) and 0 <= v["eb"] < len(EXTS):
-            tries.append((EXTS[v["eb"]], [bool(v.get(f"s{i}")) for i in range(4)]))
+            tries.append((EXTS[v["eb"]], [bool(v.get(f"s{i}")) for i in range(res["args"].get("k", 4))]))
         tries += [(e, sch) for e in EXTS for sch in ([False, True, False, True], [True, False, False, True], [False, False, True, True])]
         for eb, sch in tries:
             p = interleaved_problem(ea, eb, sch)
